@@ -2628,3 +2628,7 @@ pub mod macros {
         ml::replace_names_sorted(input)
     }
 }
+
+/// The attribute rewriters of `attr.rs` on the attribute lists of a parsed snippet
+/// (`src/verif_hooks/attrs.rs`).
+pub mod attrs;
